@@ -2339,6 +2339,28 @@ pub fn gen_round4<W: Write>(w: &mut W, prop: &str) {
     const R: &str = "READY.\n";
     let ifc = format!("?ILLEGAL FUNCTION CALL\n{}", R);
     let cases: Vec<(Vec<&str>, String)> = match prop {
+        // the last statement is an END inside an IF that is not taken: the program ends normally (round 5)
+        "C01" => vec![
+            (vec!["10 PRINT \"A\"", "20 IF X THEN END", "RUN"], format!("A\n{}", R)),
+            (vec!["10 FOR I=1 TO 3", "20 PRINT I;", "30 NEXT", "40 IF I=4 THEN PRINT \"DONE\" ELSE END", "RUN"], format!(" 1  2  3 DONE\n{}", R)),
+            (vec!["10 A=0", "20 PRINT \"GO\"", "30 IF A THEN PRINT \"STOPPING\":END", "RUN", "X=X+1:IF X<3 THEN GOTO 10"], format!("GO\n{0}GO\n{0}", R)),
+        ],
+        // SGN of any zero is 0, however the zero was computed (negated, a product with a negative factor, an underflow)
+        "C02" => vec![
+            (vec!["PRINT SGN(-A);SGN(-D#);SGN(-0!);SGN(0*-1.5);SGN(-1E-30*1E-30)", "PRINT SGN(-2.5);SGN(2.5#);SGN(-3);SGN(0)"], format!(" 0  0  0  0  0 \n{0}-1  1 -1  0 \n{0}", R)),
+        ],
+        // distinct elements never share storage, the ones on the declared bound included
+        "C06" => vec![
+            (vec!["10 DIM M(3,4)", "20 M(0,4)=7", "30 PRINT M(0,4);M(1,0);M(0,3)", "40 M(1,0)=9", "50 PRINT M(0,4);M(1,0)", "RUN", "T$(2,10)=\"EDGE\":PRINT \"[\";T$(3,0);\"]\";T$(2,10)"], format!(" 7  0  0 \n 7  9 \n{0}[]EDGE\n{0}", R)),
+            (vec!["10 DIM G%(2,2,2)", "20 FOR I=0 TO 2:FOR J=0 TO 2:FOR K=0 TO 2", "30 G%(I,J,K)=100*I+10*J+K+1", "40 NEXT K,J,I", "50 FOR I=0 TO 2:FOR J=0 TO 2:FOR K=0 TO 2", "60 IF G%(I,J,K)<>100*I+10*J+K+1 THEN E=E+1", "70 NEXT K,J,I", "80 PRINT E", "RUN"], format!(" 0 \n{}", R)),
+            (vec!["10 FOR I=0 TO 10:FOR J=0 TO 10:Q(I,J)=I*11+J+1:NEXT J,I", "20 FOR I=0 TO 10:FOR J=0 TO 10:IF Q(I,J)<>I*11+J+1 THEN E=E+1", "30 NEXT J,I:PRINT E", "RUN"], format!(" 0 \n{}", R)),
+        ],
+        // the constants a RUN delivers are those of the listing as it stands now, whatever was compiled before
+        "C09" => vec![
+            (vec!["10 DATA 1,2", "20 READ A,B:PRINT A;B", "RUN", "10 DATA 3,4", "RUN", "RESTORE:READ C:PRINT C"], format!(" 1  2 \n{0} 3  4 \n{0} 3 \n{0}", R)),
+            (vec!["10 DATA 7", "20 READ A:PRINT A", "RUN", "10", "RUN"], format!(" 7 \n{0}?OUT OF DATA IN 20\n{0}", R)),
+            (vec!["10 DATA 5", "20 READ A:PRINT A", "RUN", "NEW", "READ Z"], format!(" 5 \n{0}{0}?OUT OF DATA\n{0}", R)),
+        ],
         // the TRON trace is output like any other: zones, TAB and POS count from the true column
         "C11" => vec![
             (vec!["10 PRINT \"ABCDEFGH\";", "20 PRINT ,\"X\"", "TRON", "RUN"], format!("{}[10]ABCDEFGH[20]{}X\n{}", R, " ".repeat(12), R)),
@@ -2390,6 +2412,42 @@ pub fn gen_round4<W: Write>(w: &mut W, prop: &str) {
             _ => vec![],
         };
         emit(w, prop, "session", &v, &replies);
+    }
+    if prop == "C17" {
+        // a reply longer than the line buffer is asked for again like any other unacceptable reply
+        for n in [1025usize, 1026, 2000] {
+            let long = format!("{},12", "X".repeat(n - 3));
+            let expected = format!("NAME? JOE\n?REDO FROM START\nNAME? {}\n?REDO FROM START\nNAME? JOE, 3\nJOE 3 \nDONE\n{}", long, R);
+            let v = vec![hex(&expected), "10 INPUT \"NAME\";A$,B".to_string(), "20 PRINT A$;B".to_string(), "30 PRINT \"DONE\"".to_string(), "RUN".to_string()];
+            emit(w, prop, "session", &v, &["JOE".to_string(), long, "JOE, 3".to_string()]);
+        }
+    }
+    if prop == "C09" {
+        // DATA lines edited after the program was compiled once: RUN equals the run of a fresh interpreter given the listing
+        let mut rng = Rng::new(0xC09E);
+        for _ in 0..60 {
+            let k = 1 + rng.below(4);
+            let mut lines: Vec<String> = vec![];
+            for i in 0..k {
+                let vals: Vec<String> = (0..1 + rng.below(3)).map(|_| format!("{}", rng.below(100))).collect();
+                lines.push(format!("{} DATA {}", 10 * (i + 1), vals.join(",")));
+            }
+            lines.push("100 FOR I=1 TO 3:READ V:PRINT V;:NEXT".to_string());
+            lines.push("RUN".to_string());
+            for _ in 0..1 + rng.below(2) {
+                let target = 10 * (1 + rng.below(k + 1));
+                lines.push(match rng.below(3) {
+                    0 => format!("{}", target),
+                    1 => format!("{} DATA {},{}", target, rng.below(100), rng.below(100)),
+                    _ => format!("{} DATA {}", target + 5, rng.below(100)),
+                });
+            }
+            if rng.chance(1, 3) {
+                lines.push("PRINT 1".to_string());
+            }
+            lines.push(if rng.chance(1, 3) { "RESTORE:READ C:PRINT C".to_string() } else { "RUN".to_string() });
+            emit(w, "C09", "fresh", &lines, &[]);
+        }
     }
     if prop == "C18" || prop == "C17" {
         // INPUT of k variables inside a loop: a reply with more fields is asked for again (so nothing of it stays
